@@ -7,13 +7,17 @@
   transactions, transaction lists, match results, statistics, snapshots, level data, packages —
   and a package still validates after the trip (`C17_package_validates`).
 
-  Modelled, not proved: `serde_json`'s text layer (printing a tree as compact text and reading it
-  back). It is third-party code; the model's `render` / `parseJson` are compared with it byte for
-  byte / tree for tree on every run (E-json), and integers are kept as exact `Int`s in the tree, so
-  "integers above 2^53" is covered by the tree-level theorems plus that comparison.
+  Text level (`C17_text_*`): reading back the compact text printed for the tree gives the tree
+  (`PLV.J.parseJson_render`, for every clean tree, and every encoder produces clean trees), so
+  `dec (parse (print (enc v))) = v` — integers are exact `Int`s, nothing passes through a float,
+  which is the "integers above 2^53" clause.
+
+  Modelled: that `render` / `parseJson` are what `serde_json::to_string` / `from_str` do. It is
+  third-party code; the two are compared with it byte for byte / tree for tree on every run (E-json).
 -/
 import PLV.Props.C16
 import PLV.Model.Json
+import PLV.Lemmas.JsonClean
 
 namespace PLV.C17
 open PLV PLV.Text PLV.J
@@ -162,7 +166,7 @@ theorem rt_Reserve_some (id : Id) (price vis : Nat) (side : Side) (ts : Nat) (ti
   rfl
 
 /-- **orders, all seven kinds** -/
-theorem C17_order (o : Order) (h : C16.OrderOk o) : decOrder (encOrder o) = .ok o := by
+theorem C17_order (o : Order) (h : OrderOk o) : decOrder (encOrder o) = .ok o := by
   obtain ⟨id, price, vis, side, ts, tif, kind⟩ := o
   obtain ⟨h1, h2, h3, h4, h5, hk⟩ := h
   cases kind with
@@ -178,14 +182,14 @@ theorem C17_order (o : Order) (h : C16.OrderOk o) : decOrder (encOrder o) = .ok 
     | some a => exact rt_Reserve_some id price vis side ts tif hq thr a auto h1 h2 h3 h4 h5 hk.1 hk.2.1 (hk.2.2 a rfl)
 
 /-- **order lists** (any length, any order) -/
-theorem C17_orders (os : List Order) (h : ∀ o ∈ os, C16.OrderOk o) : decOrders (encOrders os) = .ok os := by
+theorem C17_orders (os : List Order) (h : ∀ o ∈ os, OrderOk o) : decOrders (encOrders os) = .ok os := by
   simp only [decOrders, encOrders, asArr, bind, Except.bind]
   exact mapM_enc encOrder decOrder os (fun o ho => C17_order o (h o ho))
 
 /-! ### order updates -/
 
 /-- **order updates, all five kinds** -/
-theorem C17_update (u : Update) (h : C16.UpdateOk u) : decUpdate (encUpdate u) = .ok u := by
+theorem C17_update (u : Update) (h : UpdateOk u) : decUpdate (encUpdate u) = .ok u := by
   cases u with
   | price id p =>
     have e1 := C17_id id h.1; have e2 := decU64_num h.2
@@ -206,7 +210,7 @@ theorem C17_update (u : Update) (h : C16.UpdateOk u) : decUpdate (encUpdate u) =
 /-! ### transactions, lists, match results -/
 
 /-- **transactions** -/
-theorem C17_tx (t : TxRec) (h : C16.TxOk t) : decTx (encTx t) = .ok t := by
+theorem C17_tx (t : TxRec) (h : TxOk t) : decTx (encTx t) = .ok t := by
   obtain ⟨txid, taker, maker, price, qty, side, ts⟩ := t
   have e0 := C17_uuid txid h.txid
   have e1 := C17_id taker h.taker
@@ -217,15 +221,9 @@ theorem C17_tx (t : TxRec) (h : C16.TxOk t) : decTx (encTx t) = .ok t := by
   simp (config := {decide := true}) [encTx, decTx, field, fieldOpt, asObj, asArr, List.filter_cons, List.filter_nil, decUnit, decBool, decStr, C17_side, C17_peg, bind, Except.bind, e0, e1, e2, e3, e4, e5]
 
 /-- **transaction lists** (any length) -/
-theorem C17_txlist (l : List TxRec) (h : ∀ t ∈ l, C16.TxOk t) : decTxList (encTxList l) = .ok l := by
+theorem C17_txlist (l : List TxRec) (h : ∀ t ∈ l, TxOk t) : decTxList (encTxList l) = .ok l := by
   have := mapM_enc encTx decTx l (fun t ht => C17_tx t (h t ht))
   simp (config := {decide := true}) [encTxList, decTxList, field, fieldOpt, asObj, asArr, List.filter_cons, List.filter_nil, decUnit, decBool, decStr, C17_side, C17_peg, bind, Except.bind, this]
-
-structure MROk (r : MRRec) : Prop where
-  id : r.orderId.val < 2 ^ 128
-  txs : ∀ t ∈ r.txs, C16.TxOk t
-  rem : r.remaining < W
-  filled : ∀ i ∈ r.filled, i.val < 2 ^ 128
 
 /-- **match results** (any number of transactions and filled ids, both flags) -/
 theorem C17_mr (r : MRRec) (h : MROk r) : decMR (encMR r) = .ok r := by
@@ -246,13 +244,6 @@ theorem C17_stats (now : Nat) (s : StatsRec) (h : s.added < W ∧ s.removed < W 
   have e1 := decU64_num h1; have e2 := decU64_num h2; have e3 := decU64_num h3; have e4 := decU64_num h4
   have e5 := decU64_num h5; have e6 := decU64_num h6; have e7 := decU64_num h7; have e8 := decU64_num h8
   simp (config := {decide := true}) [encStats, decStats, statField, statKeys, field, fieldOpt, asObj, asArr, List.filter_cons, List.filter_nil, decUnit, decBool, decStr, C17_side, C17_peg, bind, Except.bind, e1, e2, e3, e4, e5, e6, e7, e8]
-
-structure SnapOk (s : Snapshot) : Prop where
-  price : s.price < W
-  vis : s.vis < W
-  hid : s.hid < W
-  cnt : s.cnt < W
-  orders : ∀ o ∈ s.orders, C16.OrderOk o
 
 /-- **snapshots** (strict visitor) -/
 theorem C17_snapshot (s : Snapshot) (h : SnapOk s) : decSnapshot (encSnapshot s) = .ok s := by
@@ -285,8 +276,56 @@ theorem C17_package_validates (H : List UInt8 → Str) (p : Package) (hv : p.ver
 theorem C17_new_package_validates (H : List UInt8 → Str) (s : Snapshot) : (Package.new H s).validate H = .ok () := by
   simp [Package.new, Package.validate]
 
+/-! ### text level: print, read back, decode -/
+
+/-- the text trip: print the tree, read the text, decode -/
+def viaText {α : Type} (dec : Json → D α) (j : Json) : Option (D α) := (parseJson (render j)).map dec
+
+theorem text_rt {α : Type} (dec : Json → D α) (j : Json) (v : α) (hc : clean j = true) (ht : dec j = .ok v) :
+    viaText dec j = some (.ok v) := by
+  simp [viaText, parseJson_render j hc, ht]
+
+theorem C17_text_order (o : Order) (h : OrderOk o) : viaText decOrder (encOrder o) = some (.ok o) :=
+  text_rt _ _ _ (clean_order o h) (C17_order o h)
+
+theorem C17_text_update (u : Update) (h : UpdateOk u) : viaText decUpdate (encUpdate u) = some (.ok u) :=
+  text_rt _ _ _ (clean_update u h) (C17_update u h)
+
+theorem C17_text_id (i : Id) (h : i.val < 2 ^ 128) : viaText decId (encId i) = some (.ok i) :=
+  text_rt _ _ _ (clean_id i) (C17_id i h)
+
+theorem C17_text_side (s : Side) : viaText decSide (encSide s) = some (.ok s) :=
+  text_rt _ _ _ (clean_side s) (C17_side s)
+
+theorem C17_text_tif (t : Tif) (h : ∀ n, t = .gtd n → n < W) : viaText decTif (encTif t) = some (.ok t) :=
+  text_rt _ _ _ (clean_tif t h) (C17_tif t h)
+
+theorem C17_text_peg (p : PegRef) : viaText decPeg (encPeg p) = some (.ok p) :=
+  text_rt _ _ _ (clean_peg p) (C17_peg p)
+
+theorem C17_text_tx (t : TxRec) (h : TxOk t) : viaText decTx (encTx t) = some (.ok t) :=
+  text_rt _ _ _ (clean_tx t h) (C17_tx t h)
+
+theorem C17_text_mr (r : MRRec) (h : MROk r) : viaText decMR (encMR r) = some (.ok r) :=
+  text_rt _ _ _ (clean_mr r h) (C17_mr r h)
+
+theorem C17_text_stats (now : Nat) (s : StatsRec) (h : s.added < W ∧ s.removed < W ∧ s.executed < W ∧ s.qty < W ∧
+    s.value < W ∧ s.last < W ∧ s.first < W ∧ s.wait < W) : viaText (decStats now) (encStats s) = some (.ok s) :=
+  text_rt _ _ _ (clean_stats s h) (C17_stats now s h)
+
+theorem C17_text_snapshot (s : Snapshot) (h : SnapOk s) : viaText decSnapshot (encSnapshot s) = some (.ok s) :=
+  text_rt _ _ _ (clean_snapshot s h) (C17_snapshot s h)
+
+theorem C17_text_leveldata (s : Snapshot) (h : SnapOk s) : viaText decLevelData (encSnapshot s) = some (.ok s) :=
+  text_rt _ _ _ (clean_snapshot s h) (C17_leveldata s h)
+
+/-- packages: the checksum is any printable-ASCII string without quote/backslash (the crate's is hex) -/
+theorem C17_text_package (p : Package) (hv : p.version < 4294967296) (hs : SnapOk p.snapshot)
+    (hc : cleanStr p.checksum = true) : viaText decPackage (encPackage p) = some (.ok p) :=
+  text_rt _ _ _ (clean_package p hv hs hc) (C17_package p hv hs)
+
 /-! non-vacuity -/
-example : C16.OrderOk ⟨⟨false, 0⟩, 2 ^ 53 + 1, W - 1, .sell, 0, .gtd (W - 1), .pegged (-9223372036854775808) .bestBid⟩ :=
+example : OrderOk ⟨⟨false, 0⟩, 2 ^ 53 + 1, W - 1, .sell, 0, .gtd (W - 1), .pegged (-9223372036854775808) .bestBid⟩ :=
   ⟨by decide, by decide, by decide, by decide, by intro n h; cases h; decide, by decide⟩
 
 end PLV.C17
